@@ -387,6 +387,15 @@ class Walker:
             return
         slots = [self.ab.ev(x, env) for x in v.elts]
         label = f"{self.f.short}: cell.updater.{param}"
+        # a part guarded as `X if T else None`: the guard must test the part it guards
+        for si, x in enumerate(v.elts):
+            if isinstance(x, ast.IfExp) and isinstance(x.orelse, ast.Constant) and x.orelse.value is None:
+                tn = {n.id for n in ast.walk(x.test) if isinstance(n, ast.Name)}
+                bn = {n.id for n in ast.walk(x.body) if isinstance(n, ast.Name)}
+                okg = tn <= bn
+                self.ctx.ob("C09.a", f"{label}: slot {si} is dropped only when it is itself empty", okg,
+                            "" if okg else f"`{ast.unparse(x)[:70]}` drops the part depending on {sorted(tn - bn)}, a different quantity: "
+                            f"when that one is empty a due {'potentiating' if si == 0 else 'depressing'} part is discarded", where, x)
         if mode is not None:
             tests, truth, mid, mst = mode
             label += f" in case {list(truth)} of match {ast.unparse(mst.subject)}"
@@ -488,6 +497,7 @@ def check(ctx):
     if unknown:
         ctx.note(f"operations evaluated as unknown-sign (never a pass by themselves): {sorted(unknown)}")
     c10.check_accumulator_update(ctx, "C09.d")
+    c10.check_cache_pairing(ctx, "C09.e")
     # trace kernels preserve non-negativity (used by the sign table for trace monitors)
     assume = {"amplitude": "P", "decay": "P", "trace": "P", "scale": "P", "observation": "P"}
     for k in ("trace_nearest", "trace_cumulative", "trace_cumulative_value"):
